@@ -57,7 +57,7 @@ def body(run):
             dist['gbo-degenerate-norm'] = dist.get('gbo-degenerate-norm', 0) + 1
             continue
         # independent oracle: the definition recomputed from explicit loops on the implementation's output
-        v = ik.brute_check(c['model'], c['kshape'], c['thresh'], c['src'], c['ref'], out)
+        v = ik.brute_check(c['model'], c['kshape'], c['thresh'], c['src'], c['ref'], out, exact_sums=c['style'] == 'high-level')
         if v is not None:
             run.add_violation(v['what'], desc, expected=v.get('expected'), observed=v,
                               signature=dict(kind='kernel-definition', model=c['model']))
